@@ -79,9 +79,10 @@ pub fn sequence_or_set_template(comments: &str, name: &str, members: &str) -> St
 }
 
 pub fn sequence_or_set_of_template(comments: &str, name: &str, member_type: &str) -> String {
+    let array_type = super::utils::array_type(member_type);
     format!(
         r#"{comments}
-        export type {name} = {member_type}[];"#
+        export type {name} = {array_type};"#
     )
 }
 
